@@ -227,6 +227,9 @@ Definition wire_deconv_f (signal wire_response : list float) : res (list float) 
 Definition sf_ge0 (x : spec_float) : Prop :=
   match x with S754_nan => True | S754_zero s | S754_infinity s | S754_finite s _ _ => s = false end.
 Definition f_ge0 (x : float) : Prop := sf_ge0 (Prim2SF x).
+(* finite binary64 value (a zero, subnormal or normal number; not NaN, not an infinity) *)
+Definition sf_fin (x : spec_float) : Prop := match x with S754_zero _ | S754_finite _ _ _ => True | _ => False end.
+Definition f_fin (x : float) : Prop := sf_fin (Prim2SF x).
 
 (* ------------------------------------------------------------------------------------------ *)
 (* exact instance: canonical rationals Qc (Leibniz equality, decidable order); no NaN, no rounding *)
